@@ -239,17 +239,20 @@ pub fn run(args: &[String]) -> ! {
     let deep_only: Vec<&Base> = deep.docs.iter().filter(|b| !shallow_texts.contains(&corpus::join(&b.toks))).collect();
     let subs_full = corpus::substitutes();
     let subs_small = corpus::substitutes_small();
-    let work: Vec<(&Base, &[String])> =
-        shallow.docs.iter().map(|b| (b, &subs_full[..])).chain(deep_only.iter().map(|b| (*b, &subs_small[..]))).collect();
+    let work: Vec<(&Base, &[String], corpus::TightScope)> = shallow
+        .docs
+        .iter()
+        .map(|b| (b, &subs_full[..], c12::tight_scope(tier, true)))
+        .chain(deep_only.iter().map(|b| (*b, &subs_small[..], c12::tight_scope(tier, false))))
+        .collect();
     let two_gap = c12::two_gap_set(tier, reps);
-    let scope = c12::tight_scope(tier, &subs_small);
     let parts: Vec<Stats> = work
         .par_chunks(16)
         .map(|chunk| {
             let mut st = Stats::default();
             let mut tight = Tight::default();
-            for (b, subs) in chunk {
-                c12::family(b, subs, two_gap.contains(&corpus::join(&b.toks)), scope, &mut tight, |kind, text| st.record(kind, &text));
+            for (b, subs, scope) in chunk {
+                c12::family(b, subs, two_gap.contains(&corpus::join(&b.toks)), *scope, &mut tight, |kind, text| st.record(kind, &text));
                 corpus::for_each_layout(&b.toks, &corpus::DOC_SEPARATORS, |t| st.record("doc-comment-layout", &t));
             }
             st
@@ -316,7 +319,7 @@ pub fn run(args: &[String]) -> ! {
                 Some(k) => format!(", ordered statement pairs of E(statement,{k})"),
                 None => String::new(),
             },
-            c12::tight_rule(scope),
+            c12::tight_rule(if tier == mc_core::Tier::Quick { Some(full_depth) } else { None }),
             corpus::DOC_SEPARATORS.len()
         )),
     );
